@@ -245,8 +245,21 @@ def abstract_encoders():
     def t_ok(c):
         return wire.table_encodable(c.value.t, B(leg(c)))
 
-    is_time = lambda v: isinstance(v, SOpaque) and v.kind in ('datetime_naive', 'datetime_aware', 'struct_time')
-    secs = lambda c: SInt(wire.dt_seconds(c.value.t))
+    import datetime as _dtm
+    import time as _tm
+
+    def is_time(v):
+        return (isinstance(v, SOpaque) and v.kind in ('datetime_naive', 'datetime_aware', 'struct_time')) or \
+            isinstance(v, (_dtm.datetime, _tm.struct_time))
+
+    def secs(c):
+        if isinstance(c.value, (_dtm.datetime, _tm.struct_time)):
+            from spec import ref
+            s = ref.seconds(c.value)
+            if isinstance(c.value, _dtm.datetime) and s < 0 and c.value.microsecond:
+                s += 1          # int() truncates toward zero: a pre-epoch fraction rounds up (I2)
+            return s
+        return SInt(wire.dt_seconds(c.value.t))
     out.append(Contract(ENC + '.timestamp', [('value', T.dt_naive | T.dt_aware | T.struct_time | T.int | T.str | T.none)], cases=[
         Case('instant', when=lambda c: is_time(c.value) and in_range(secs(c), 0, 2 ** 64 - 1),
              returns=lambda c: wire.be(c.st, 8, secs(c))),
